@@ -49,53 +49,85 @@ func c05HashAndPrefix(r *core.Report, pk string) {
 		if f == nil {
 			continue
 		}
-		info := f.Pkg.TypesInfo
-		sig := f.ParamObj(0)
-		hashOK, prefixOK := false, false
-		why := ""
-		for _, c := range core.CallsIn(f.Body, true) {
-			if core.CalleeName(info, c) == pk+".Hash" && len(c.Args) == 1 {
-				if core.ObjOf(info, c.Args[0]) == sig {
-					hashOK = true
-				} else {
-					why = "Hash is applied to " + core.ExprStr(c.Args[0]) + ", not to the whole signature"
+		// the function itself plus the helpers of the package that receive the signature (bucketIndex(sig), ...)
+		type sigBody struct {
+			fn  *core.Func
+			sig types.Object
+		}
+		bodies := []sigBody{{f, f.ParamObj(0)}}
+		for i := 0; i < len(bodies) && i < 8; i++ {
+			b := bodies[i]
+			bi := b.fn.Pkg.TypesInfo
+			for _, c := range core.CallsIn(b.fn.Body, true) {
+				fo := core.Callee(bi, c)
+				if fo == nil {
+					continue
+				}
+				h := p.ByObj[fo.Origin()]
+				if h == nil || h.Body == nil || h.Pkg != f.Pkg || h.Key == pk+".Hash" {
+					continue
+				}
+				for ai, a := range c.Args {
+					if core.ObjOf(bi, a) == b.sig && h.ParamObj(ai) != nil {
+						dup := false
+						for _, e := range bodies {
+							dup = dup || e.fn == h
+						}
+						if !dup {
+							bodies = append(bodies, sigBody{h, h.ParamObj(ai)})
+						}
+					}
 				}
 			}
 		}
-		// prefix: a [2]byte built from sig[0], sig[1] / copy(prefix[:], sig[:2])
-		ast.Inspect(f.Body, func(n ast.Node) bool {
-			switch x := n.(type) {
-			case *ast.CompositeLit:
-				if at, ok := info.TypeOf(x).Underlying().(*types.Array); ok && at.Len() == 2 && len(x.Elts) == 2 {
-					if isSigByte(info, x.Elts[0], sig, 0) && isSigByte(info, x.Elts[1], sig, 1) {
-						prefixOK = true
+		hashOK, prefixOK, uses := false, false, false
+		why := ""
+		for _, b := range bodies {
+			info := b.fn.Pkg.TypesInfo
+			sig := b.sig
+			for _, c := range core.CallsIn(b.fn.Body, true) {
+				switch core.CalleeName(info, c) {
+				case pk + ".Hash":
+					if len(c.Args) == 1 {
+						if core.ObjOf(info, c.Args[0]) == sig {
+							hashOK = true
+						} else {
+							why = "Hash is applied to " + core.ExprStr(c.Args[0]) + ", not to the whole signature"
+						}
 					}
+				case "bucketteer.prefixToUint16":
+					uses = true
 				}
-			case *ast.CallExpr:
-				if core.BuiltinName(info, x) == "copy" && len(x.Args) == 2 {
-					if se, ok := core.Unparen(x.Args[1]).(*ast.SliceExpr); ok && core.ObjOf(info, se.X) == sig && se.Low == nil && se.High != nil {
-						if hi, ok := core.ConstInt(info, se.High); ok && hi == 2 {
-							if d, ok := core.Unparen(x.Args[0]).(*ast.SliceExpr); ok {
-								if at, ok := info.TypeOf(d.X).Underlying().(*types.Array); ok && at.Len() == 2 {
-									prefixOK = true
+			}
+			// prefix: a [2]byte built from sig[0], sig[1] / copy(prefix[:], sig[:2])
+			ast.Inspect(b.fn.Body, func(n ast.Node) bool {
+				switch x := n.(type) {
+				case *ast.CompositeLit:
+					if at, ok := info.TypeOf(x).Underlying().(*types.Array); ok && at.Len() == 2 && len(x.Elts) == 2 {
+						if isSigByte(info, x.Elts[0], sig, 0) && isSigByte(info, x.Elts[1], sig, 1) {
+							prefixOK = true
+						}
+					}
+				case *ast.CallExpr:
+					if core.BuiltinName(info, x) == "copy" && len(x.Args) == 2 {
+						if se, ok := core.Unparen(x.Args[1]).(*ast.SliceExpr); ok && core.ObjOf(info, se.X) == sig && se.Low == nil && se.High != nil {
+							if hi, ok := core.ConstInt(info, se.High); ok && hi == 2 {
+								if d, ok := core.Unparen(x.Args[0]).(*ast.SliceExpr); ok {
+									if at, ok := info.TypeOf(d.X).Underlying().(*types.Array); ok && at.Len() == 2 {
+										prefixOK = true
+									}
 								}
 							}
 						}
 					}
 				}
-			}
-			return true
-		})
+				return true
+			})
+		}
 		r.Check(hashOK, rule, f.Key+"#hash-of-whole-signature", posP(r, f.Pos()), "the element is "+pk+".Hash of the whole signature", "the stored/looked-up element is not "+pk+".Hash(sig): "+why)
 		r.Check(prefixOK, rule, f.Key+"#bucket-from-bytes-0-1", posP(r, f.Pos()), "the bucket prefix is bytes 0 and 1 of the signature", "the bucket is not selected from bytes 0 and 1 of the signature: writer and reader look in different buckets")
 		// the modern format maps the prefix through prefixToUint16 everywhere
 		if pk == "bucketteer" {
-			uses := false
-			for _, c := range core.CallsIn(f.Body, true) {
-				if core.CalleeName(info, c) == "bucketteer.prefixToUint16" {
-					uses = true
-				}
-			}
 			r.Check(uses, rule, f.Key+"#prefix-mapping", posP(r, f.Pos()), "the prefix is mapped to the table index by prefixToUint16", "the table index is not computed with prefixToUint16 (endianness mismatch between writer and reader)")
 		}
 	}
@@ -121,76 +153,10 @@ func c05Sizes(r *core.Report, pk string) {
 	}
 	info := seal.Pkg.TypesInfo
 	g := p.Graph(seal)
-	// writer: binary.Write(out, _, uint32(len(entries))) and binary.Write(out, _, h) with h uint64; thisSize := 4 + len(entries)*8
-	var cntW, elW int64
-	var sizeExpr ast.Expr
-	var sizeObj types.Object
-	ast.Inspect(seal.Body, func(n ast.Node) bool {
-		switch x := n.(type) {
-		case *ast.CallExpr:
-			if core.CalleeName(info, x) == "encoding/binary.Write" && len(x.Args) == 3 {
-				sz := sizeOfType(info.TypeOf(x.Args[2]))
-				if strings.Contains(core.ExprStr(x.Args[2]), "len(") {
-					cntW = sz
-				} else {
-					elW = sz
-				}
-			}
-		case *ast.AssignStmt:
-			if len(x.Lhs) == 1 && len(x.Rhs) == 1 {
-				if be, ok := core.Unparen(x.Rhs[0]).(*ast.BinaryExpr); ok && be.Op == token.ADD && strings.Contains(core.ExprStr(be), "len(") {
-					sizeExpr = be
-					sizeObj = core.ObjOf(info, x.Lhs[0])
-				}
-			}
-		}
-		return true
-	})
-	var a, m int64 = -1, -1
-	if be, ok := sizeExpr.(*ast.BinaryExpr); ok {
-		a, _ = core.ConstInt(info, be.X)
-		if mb, ok := core.Unparen(be.Y).(*ast.BinaryExpr); ok && mb.Op == token.MUL {
-			m, _ = core.ConstInt(info, mb.Y)
-		}
-	}
-	// the n of 4 + 8*n is the length of the very slice whose length is written as the count and whose elements are written
-	{
-		lenArgOf := func(e ast.Expr) types.Object {
-			var o types.Object
-			ast.Inspect(e, func(m ast.Node) bool {
-				if c, ok := m.(*ast.CallExpr); ok && core.BuiltinName(info, c) == "len" && len(c.Args) == 1 && o == nil {
-					o = core.ObjOf(info, c.Args[0])
-				}
-				return true
-			})
-			return o
-		}
-		var sizeOf, countOf, rangedOf types.Object
-		if sizeExpr != nil {
-			sizeOf = lenArgOf(sizeExpr)
-		}
-		ast.Inspect(seal.Body, func(n ast.Node) bool {
-			switch x := n.(type) {
-			case *ast.CallExpr:
-				if core.CalleeName(info, x) == "encoding/binary.Write" && len(x.Args) == 3 && strings.Contains(core.ExprStr(x.Args[2]), "len(") {
-					countOf = lenArgOf(x.Args[2])
-				}
-			case *ast.RangeStmt:
-				for _, c := range core.CallsIn(x.Body, false) {
-					if core.CalleeName(info, c) == "encoding/binary.Write" && len(c.Args) == 3 && x.Value != nil && core.ObjOf(info, c.Args[2]) == core.ObjOf(info, x.Value) {
-						rangedOf = core.ObjOf(info, x.X)
-					}
-				}
-			}
-			return true
-		})
-		same := sizeOf != nil && sizeOf == countOf && (rangedOf == nil || rangedOf == sizeOf)
-		r.Check(same, rule, pk+"#size-counts-the-written-slice", posP(r, seal.Pos()), "the recorded bucket size, the count field and the elements written all refer to the same slice",
-			"the bucket size is computed from another slice than the one whose length and elements are written (e.g. before de-duplication): every later bucket offset is off by 8 bytes per dropped element")
-	}
-	r.Check(cntW == 4 && elW == 8 && a == cntW && m == elW, rule, pk+"#bucket-size=4+8n", posP(r, seal.Pos()), "a bucket is a uint32 count plus uint64 elements and its size is recorded as 4 + 8*count",
-		fmt.Sprintf("the size recorded for a bucket (%d + %d*count) does not match what is written (count: %d bytes, element: %d bytes): every later bucket offset is wrong", a, m, cntW, elW))
-	// offset recorded before the running offset is advanced
+	// writer. The loop that lays out the buckets: it records prefixToOffset[...] = <running offset>, writes the bucket and
+	// advances the running offset. Bytes written per iteration and the amount the offset is advanced by are both evaluated
+	// to  c + k*len(S)  (emission.go), through whatever helpers and locals they are expressed with.
+	var cntW, elW int64 = -1, -1
 	var store, adv *core.GNode
 	var prev types.Object
 	for _, n := range stmtNodes(g) {
@@ -206,40 +172,114 @@ func c05Sizes(r *core.Report, pk string) {
 			}
 		}
 	}
-	if prev != nil {
-		for _, n := range stmtNodes(g) {
-			if as, ok := n.Ast.(*ast.AssignStmt); ok && len(as.Lhs) == 1 && core.ObjOf(info, as.Lhs[0]) == prev && n != store && as.Tok != token.DEFINE {
-				adv = n
-			}
-		}
-	}
-	okOrder := store != nil && adv != nil
-	if okOrder {
-		// the store must not be reachable from the advance within the same iteration
-		var loop ast.Stmt
+	var loop *ast.RangeStmt
+	if store != nil {
 		ast.Inspect(seal.Body, func(m ast.Node) bool {
 			if rs, ok := m.(*ast.RangeStmt); ok && rs.Body.Pos() <= store.Ast.Pos() && store.Ast.End() <= rs.Body.End() {
 				loop = rs
 			}
 			return true
 		})
+	}
+	var advAdd ast.Expr
+	if prev != nil && loop != nil {
+		for _, n := range stmtNodes(g) {
+			as, ok := n.Ast.(*ast.AssignStmt)
+			if !ok || len(as.Lhs) != 1 || len(as.Rhs) != 1 || core.ObjOf(info, as.Lhs[0]) != prev || n == store || as.Tok == token.DEFINE {
+				continue
+			}
+			if as.Pos() < loop.Body.Pos() || as.End() > loop.Body.End() {
+				continue
+			}
+			adv = n
+			switch as.Tok {
+			case token.ADD_ASSIGN:
+				advAdd = as.Rhs[0]
+			case token.ASSIGN:
+				if be, ok := core.Unparen(as.Rhs[0]).(*ast.BinaryExpr); ok && be.Op == token.ADD {
+					if core.ObjOf(info, be.X) == prev {
+						advAdd = be.Y
+					} else if core.ObjOf(info, be.Y) == prev {
+						advAdd = be.X
+					}
+				}
+			}
+		}
+	}
+	// the writer variable: the first argument of the binary.Write calls / the helper that receives a writer
+	var wObj types.Object
+	if loop != nil {
+		ast.Inspect(loop.Body, func(m ast.Node) bool {
+			c, ok := m.(*ast.CallExpr)
+			if !ok || wObj != nil {
+				return true
+			}
+			for _, a := range c.Args {
+				if t := info.TypeOf(a); t != nil && (strings.HasSuffix(t.String(), "bufio.Writer") || strings.HasSuffix(t.String(), "io.Writer") || strings.HasSuffix(t.String(), "bytes.Buffer")) {
+					wObj = core.ObjOf(info, a)
+				}
+			}
+			return true
+		})
+	}
+	if loop == nil || wObj == nil || advAdd == nil {
+		r.Undecided(rule, pk+"#bucket-size=4+8n", posP(r, seal.Pos()), "the loop that lays out the buckets (offset store, writes, offset advance) was not recognised")
+	} else {
+		em, okE := emitPoly(p, seal, loop.Body.List, wObj, 0)
+		rec, okR := polyOfExpr(p, seal, advAdd, 0)
+		cntW, elW = em.countWidth, em.elemWidth
+		var term types.Object
+		nTerms := 0
+		for o, k := range em.poly.terms {
+			if k != 0 {
+				term = o
+				nTerms++
+			}
+		}
+		switch {
+		case !okE || !okR:
+			r.Undecided(rule, pk+"#bucket-size=4+8n", pos(r, loop), "the bytes written per bucket or the recorded bucket size could not be evaluated to a linear size expression")
+		default:
+			shape := nTerms == 1 && em.poly.c == em.countWidth && em.poly.terms[term] == em.elemWidth && em.countWidth == 4 && em.elemWidth == 8
+			r.Check(shape && em.poly.equal(rec), rule, pk+"#bucket-size=4+8n", pos(r, loop), "a bucket is a uint32 count plus uint64 elements ("+em.poly.String()+" bytes) and the running offset is advanced by exactly that",
+				fmt.Sprintf("the bytes written for a bucket (%s) and the amount the running offset is advanced by (%s) differ, or the bucket is not a 4-byte count plus 8-byte elements: every later bucket offset is wrong", em.poly.String(), rec.String()))
+			same := nTerms == 1
+			for _, o := range em.countLenOf {
+				if o != term {
+					same = false
+				}
+			}
+			for _, o := range em.rangedOver {
+				if o != term {
+					same = false
+				}
+			}
+			for o, k := range rec.terms {
+				if k != 0 && o != term {
+					same = false
+				}
+			}
+			r.Check(same && len(em.countLenOf) == 1, rule, pk+"#size-counts-the-written-slice", pos(r, loop), "the recorded bucket size, the count field and the elements written all refer to the same slice",
+				"the bucket size is computed from another slice than the one whose length and elements are written (e.g. before de-duplication): every later bucket offset is off by 8 bytes per dropped element")
+		}
+	}
+	okOrder := store != nil && adv != nil && loop != nil
+	if okOrder {
+		// the store must not be reachable from the advance within the same iteration
 		head := g.LoopHead(loop)
 		if g.Reach(adv, func(x *core.GNode) bool { return x == head })[store] {
 			okOrder = false
 		}
-		// and the advance adds the recorded size
-		if as, ok := adv.Ast.(*ast.AssignStmt); ok && sizeObj != nil && !core.Mentions(info, as.Rhs[0], sizeObj) {
-			okOrder = false
-		}
 	}
 	r.Check(okOrder, rule, pk+"#offset-recorded-before-advance", posP(r, seal.Pos()), "a bucket's offset is recorded before the running offset is advanced by the bucket's size",
-		"the bucket offset is recorded after the running offset was advanced (or the advance does not add the bucket size): every prefix points at its successor's bucket")
+		"the bucket offset is recorded after the running offset was advanced: every prefix points at its successor's bucket")
 	// reader: 4-byte count at offset, skip 4, stride 8, 8-byte element reads
 	hi := has.Pkg.TypesInfo
 	var cntBuf, skip, stride int64 = -1, -1, -1
 	// the widths are taken from how the bytes are decoded (binary.*.Uint32 / Uint64), which is what fixes the format;
 	// where the buffers come from (make, a scratch array, a pool) does not matter
-	decodeWidth := func(info *types.Info, body ast.Node, intoLits bool) int64 {
+	var decodeWidth func(info *types.Info, body ast.Node, intoLits bool) int64
+	decodeWidth = func(info *types.Info, body ast.Node, intoLits bool) int64 {
 		w := int64(-1)
 		ast.Inspect(body, func(n ast.Node) bool {
 			if _, isLit := n.(*ast.FuncLit); isLit && !intoLits {
@@ -253,6 +293,21 @@ func c05Sizes(r *core.Report, pk string) {
 					w = 4
 				case strings.HasSuffix(nm, "ndian).Uint64"):
 					w = 8
+				default:
+					// a small decoding helper of the package (readUint32Le(reader, pos))
+					if fo := core.Callee(info, c); fo != nil && w < 0 {
+						readsFrom := false
+						for _, a := range c.Args {
+							if t := info.TypeOf(a); t != nil && strings.Contains(t.String(), "Reader") {
+								readsFrom = true
+							}
+						}
+						if h := p.ByObj[fo.Origin()]; readsFrom && h != nil && h.Body != nil && h.Pkg == has.Pkg && len(h.Body.List) <= 8 {
+							if hw := decodeWidth(h.Pkg.TypesInfo, h.Body, true); hw > 0 {
+								w = hw
+							}
+						}
+					}
 				}
 			}
 			return true
@@ -277,7 +332,8 @@ func c05Sizes(r *core.Report, pk string) {
 					}
 				}
 			case *ast.BinaryExpr:
-				if x.Op == token.MUL && core.ExprStr(x.X) == "index" {
+				// <getter's index parameter> * K
+				if x.Op == token.MUL && fn.Lit != nil && fn.ParamObj(0) != nil && core.ObjOf(hi, x.X) == types.Object(fn.ParamObj(0)) {
 					stride, _ = core.ConstInt(hi, x.Y)
 				}
 			}
@@ -285,8 +341,10 @@ func c05Sizes(r *core.Report, pk string) {
 		})
 	}
 	elRead := int64(-1)
-	if ru := r.Anchor(rule, pk+".readUint64Le"); ru != nil {
-		elRead = decodeWidth(ru.Pkg.TypesInfo, ru.Body, true)
+	for _, l := range has.Lits {
+		if w := decodeWidth(hi, l.Body, true); w > 0 {
+			elRead = w
+		}
 	}
 	r.Check(cntBuf == cntW && skip == cntW && stride == elW && elRead == elW, rule, pk+"#reader-widths=writer-widths", posP(r, has.Pos()),
 		"the reader uses the writer's widths (count 4, skip 4, stride 8, element 8)",
@@ -514,26 +572,14 @@ func c05Orientation(r *core.Report, pk string) {
 		return
 	}
 	info := seal.Pkg.TypesInfo
-	// writer: comparator literal returns -1 when entries[i] < entries[j]
+	// writer: the comparator returns a negative value exactly where the element at i is smaller than the element at j
 	asc := false
 	for _, c := range core.CallsIn(seal.Body, false) {
 		if core.CalleeName(info, c) == pk+".sortWithCompare" && len(c.Args) == 2 {
 			if lit, ok := core.Unparen(c.Args[1]).(*ast.FuncLit); ok {
-				lf := p.ByLit[lit]
-				lg := p.Graph(lf)
-				for _, rn := range lg.Returns() {
-					res := returnResults(rn)
-					if len(res) != 1 {
-						continue
-					}
-					if v, ok := core.ConstInt(info, res[0]); ok && v < 0 {
-						for _, fc := range lg.FactsAt(rn) {
-							if be, ok := core.Unparen(fc.Expr).(*ast.BinaryExpr); ok && fc.Truth && be.Op == token.LSS && strings.Contains(core.ExprStr(be.X), "[i]") && strings.Contains(core.ExprStr(be.Y), "[j]") {
-								asc = true
-							}
-						}
-					}
-				}
+				asc = cmpAscending(p, p.ByLit[lit])
+			} else if fo, ok := core.ObjOf(info, c.Args[1]).(*types.Func); ok && p.ByObj[fo] != nil {
+				asc = cmpAscending(p, p.ByObj[fo])
 			}
 		}
 	}
@@ -587,7 +633,7 @@ func c05Orientation(r *core.Report, pk string) {
 		for _, n := range stmtNodes(g) {
 			for _, c := range nodeCalls(n) {
 				nm := core.CalleeName(si, c)
-				if nm == "sort.Slice" {
+				if nm == "sort.Slice" || nm == "sort.SliceStable" {
 					sortN = n
 				}
 				if nm == pk+".eytzinger" {
@@ -595,7 +641,14 @@ func c05Orientation(r *core.Report, pk string) {
 				}
 			}
 		}
-		lt := strings.Contains(core.ExprStr(sw.Body), "compare(i, j) < 0")
+		lt := false
+		for _, c := range core.CallsIn(sw.Body, false) {
+			if nm := core.CalleeName(si, c); (nm == "sort.Slice" || nm == "sort.SliceStable") && len(c.Args) == 2 {
+				if lit, ok := core.Unparen(c.Args[1]).(*ast.FuncLit); ok && sw.ParamObj(1) != nil {
+					lt = lessFromCompare(si, lit, sw.ParamObj(1))
+				}
+			}
+		}
 		swOK = sortN != nil && eyN != nil && g.Dominates(sortN, eyN) && lt
 		// the layout is applied on every way out: from the sort, the exit is not reachable without the eytzinger call
 		// (and the copy back), except under a test that lets through fewer than two elements
@@ -620,20 +673,12 @@ func c05Orientation(r *core.Report, pk string) {
 			}
 		}
 	}
-	// reader: `if k < x { index++ }`
-	ri := se.Pkg.TypesInfo
-	right := false
-	rg := p.Graph(se)
-	for _, n := range stmtNodes(rg) {
-		if inc, ok := n.Ast.(*ast.IncDecStmt); ok && inc.Tok == token.INC && core.ExprStr(inc.X) == "index" {
-			for _, fc := range rg.FactsAt(n) {
-				if be, ok := core.Unparen(fc.Expr).(*ast.BinaryExpr); ok && fc.Truth && be.Op == token.LSS && core.ExprStr(be.X) == "k" && core.ExprStr(be.Y) == "x" {
-					right = true
-				}
-			}
-		}
+	// reader: on every path around the search loop the index moves to 2i+2 when the probed element is smaller than the
+	// target and to 2i+1 when it is larger
+	right, why := eytzingerDescent(p, se)
+	if why != "" {
+		why = "; " + why
 	}
-	_ = ri
 	r.Check(asc && swOK && right, rule, pk+"#sort-ascending-search-right-on-less", posP(r, se.Pos()), "buckets are sorted ascending before the eytzinger layout and the search descends right when the probed element is smaller than the target",
-		fmt.Sprintf("layout and search orientation disagree (writer ascending: %v, sort-then-layout: %v, reader goes right on k < x: %v)", asc, swOK, right))
+		fmt.Sprintf("layout and search orientation disagree (writer ascending: %v, sort-then-layout: %v, reader goes right on k < x: %v%s)", asc, swOK, right, why))
 }
